@@ -224,13 +224,18 @@ func (s *sim) evCfg() {
 // seg; it verifies the io.Writer contract of every call.
 func (s *sim) writeFn(payload []byte, seg *sizer, calls *int) func(w io.Writer) error {
 	return func(w io.Writer) error {
+		// the state machine writes from a buffer of its own (slices of it have
+		// spare capacity behind them, as the pieces of any large buffer have);
+		// payload stays the pristine reference: io.Writer must not modify the
+		// slice it is given, even temporarily (C14: what is written is read back)
+		work := append([]byte(nil), payload...)
 		off := 0
-		for off < len(payload) {
+		for off < len(work) {
 			k := seg.next()
-			if k > len(payload)-off {
-				k = len(payload) - off
+			if k > len(work)-off {
+				k = len(work) - off
 			}
-			n, err := w.Write(payload[off : off+k])
+			n, err := w.Write(work[off : off+k])
 			*calls++
 			if err != nil {
 				return err
@@ -239,6 +244,14 @@ func (s *sim) writeFn(payload []byte, seg *sizer, calls *int) func(w io.Writer) 
 				return fmt.Errorf("short write without error: %d of %d", n, k)
 			}
 			off += k
+			hi := off + 64
+			if hi > len(work) {
+				hi = len(work)
+			}
+			if d := firstDiff(work[off-k:hi], payload[off-k:hi]); d >= 0 {
+				s.ctx.Violate(Prop, "write-modified-input", "%s: Write of %d bytes at offset %d modified the caller's buffer at offset %d", s.cfg, k, off-k, off-k+d)
+				return fmt.Errorf("writer modified its input")
+			}
 		}
 		return nil
 	}
